@@ -932,7 +932,7 @@ PROPS = {
                 design_ref="4/C08"),
     "C09": Prop("C09", [("sweep", "pair")] + [("pairs", None)], {"pair", "extpair", "lipair"}, proj_pair, orc_c09, design_ref="4/C09"),
     "C10": Prop("C10", [("cldrhist", None)] + [("sweep", "hist")] + [("hist", None)], {"hist"}, proj_c10, orc_c10, design_ref="4/C10"),
-    "C11": Prop("C11", [("match", None), ("macvals", None)], {"match", "locmatch", "langmatch", "matchx", "locmatchx", "matchr", "macrel"},
+    "C11": Prop("C11", [("sweep", "rel")] + [("match", None), ("macvals", None)], {"match", "locmatch", "langmatch", "matchx", "locmatchx", "matchr", "macrel"},
                 proj_full, orc_c11, design_ref="4/C11"),
     "C12": Prop("C12", [("sweep", "eqstr,rel"), ("specials", "eqstr,rel")] + [("rel", None), ("glue_misc", None), ("macvals", None)], {"rel", "eqstr", "subeq", "route", "macrel"}, proj_full, orc_c12,
                 design_ref="4/C12"),
@@ -1075,6 +1075,11 @@ def sweep_extension_strings():
         out.append("x-" + "-".join(tags))
         if k % 5 == 0:
             out.append("t-" + "-".join(x + "-val" + x for x in tkeys) + "-u-" + "-".join(attrs) + "-" + "-".join(x + "-val" + x for x in keys) + "-x-" + "-".join(tags))
+        # one key with k values (their order is kept), and a tlang with k variants
+        vals = ["v%s%sx" % (a[(k - 1 - i) // 26], a[(k - 1 - i) % 26]) for i in range(k)]
+        out.append("u-ca-" + "-".join(vals))
+        out.append("t-h0-" + "-".join(vals))
+        out.append("t-sl-" + "-".join(sorted(_variant_name(i, 5 + i % 4) for i in range(k))) + "-h0-hybrid")
     return out
 
 
@@ -1122,6 +1127,20 @@ def extra_stream(name, tier, seed, ops=None):
                 for i in range(0, len(ids) - 1, 2):
                     lines.append("rel %s %s" % (hx(ids[i]), hx(ids[i + 1])))
                     lines.append("rel %s %s" % (hx(ids[i]), hx(ids[i].upper().replace("-", "_"))))
+                # two identifiers that differ in exactly ONE letter / digit, for every position of the text (equality, order and hash
+                # must see every byte of every subtag, also the 5th..8th of a long language or variant)
+                for t in ("abcdefgh-Latn-US-aavarian-1abc", "fil-419-abvar-acvaria", "en-Cyrl-001-aavarian-abvarian-acvarian-advarian", "abcde-aavar"):
+                    for i, ch in enumerate(t):
+                        if ch == "-":
+                            continue
+                        alt = {"z": "y", "Z": "Y", "9": "8"}.get(ch, chr(ord(ch) + 1))
+                        if (ch.isdigit() and not alt.isdigit()) or (ch.isalpha() and not alt.isalpha()):
+                            continue
+                        u = t[:i] + alt + t[i + 1:]
+                        lines.append("rel %s %s" % (hx(t), hx(u)))
+                        lines.append("rel %s %s" % (hx(u), hx(t)))
+                        lines.append("eqstr %s %s" % (hx(t), hx(u)))
+                        lines.append("match %s %s" % (hx(t), hx(u)))
             elif op == "pair":
                 # unordered parts repeated: k subtags that are m distinct variants / attributes, against the plain spelling
                 a = "abcdefghijklmnopqrstuvwxyz"
